@@ -32,7 +32,7 @@ STARTS_T = [1.25 - 0.5j, 0j, -3.0e5 + 2.0e5j]
 RADII = [(0.3, 0.3), (1.0, 1.0), (1.0 + 1e-12, 1.0 + 1e-12), (1.0 - 1e-12, 1.0), (1.0 + 1e-7, 1.0 + 1e-7),
          (1.0 + 1e-4, 1.0 + 1e-4), (1.5, 1.5), (10.0, 10.0), (3.0, 1.0), (1.0, 3.0), (100.0, 1.0), (-2.0, -1.5), (1.5, 0.4),
          (1e-80, 2e-80), (1e-140, 1e-140), (1e-9, 1e-9)]
-ROTS = [0, 90, 180, 270, 30, -45, 123.4, 400, -725]
+ROTS = [0, 90, 180, 270, 30, -45, 123.4, 400, -725, 3.6e12 + 25.0]     # the last: ten thousand million turns and 25 degrees
 FLAGS = [(0, 0), (0, 1), (1, 0), (1, 1)]
 TS = [0.0, 2.0 ** -52, 0.125, 0.25, 1.0 / 3.0, 0.5, 0.7, 0.875, 1.0 - 2.0 ** -53, 1.0]
 
@@ -101,6 +101,36 @@ def near_spec(g):
     return (start, complex(*radius), rot, fl[0], fl[1], end)
 
 
+COLLIDE_FIELDS = ['start.real', 'start.imag', 'end.real', 'end.imag', 'rotation', 'radius.real', 'radius.imag']
+
+
+def collide_grid(tier):
+    """pairs of arcs that differ in ONE number, -1 in the first and -2 in the second: hash(-1) == hash(-2)
+    in CPython (also for floats and complex parts), so anything memoised per hash of the parameters
+    hands the second arc the first one's centre"""
+    for field in COLLIDE_FIELDS:
+        for fl in FLAGS:
+            for variant in (0, 1):
+                yield ('collide', field, fl, variant)
+
+
+def collide_specs(g):
+    _, field, fl, variant = g
+    base = {'start': 0.5 + 0.25j, 'radius': 3.0 + 2.0j, 'rotation': 20.0, 'end': 3.0 - 1.5j} if variant == 0 else \
+           {'start': -4.0 + 1.0j, 'radius': 1.0 + 5.0j, 'rotation': 0.0, 'end': 0.0 + 3.0j}
+    out = []
+    for v in (-1.0, -2.0):
+        d = dict(base)
+        name, _, part = field.partition('.')
+        if not part:
+            d[name] = v
+        else:
+            z = d[name]
+            d[name] = complex(v, z.imag) if part == 'real' else complex(z.real, v)
+        out.append((d['start'], d['radius'], d['rotation'], fl[0], fl[1], d['end']))
+    return out
+
+
 def unwrap(angles):
     out = [angles[0]]
     for a in angles[1:]:
@@ -114,7 +144,13 @@ def unwrap(angles):
 
 
 def check_arc(g, acc):
-    if g[0] == 'near':
+    if g[0] == 'collide':
+        first, spec = collide_specs(g)
+        a0 = outcome(lambda: Arc(*first))
+        if a0[0] == 'ok':
+            outcome(lambda: (a0[1].point(0.3), a0[1].length(), a0[1].bbox(), a0[1].derivative(0.5)))
+        case = {'grid': [g[0], g[1], list(g[2]), g[3]]}
+    elif g[0] == 'near':
         spec = near_spec(g)
         case = {'grid': [g[0], g[1], g[2], list(g[3]), g[4], list(g[5])]}
     elif g[0] == 'center':
@@ -128,7 +164,11 @@ def check_arc(g, acc):
     lam = ref['lambda']
     region = 'too_small' if lam > 1 + 1e-9 else ('fits' if lam < 1 - 1e-9 else 'exact_fit')
     acc.case(case, cls='%s/la%d/sw%d/%s' % (region, la, sw, 'axis' if rot % 90 == 0 else 'rotated'))
+    if g[0] == 'collide':
+        acc.seen('after_an_arc_with_colliding_hash')
     sig = {'region': region, 'large_arc': bool(la), 'sweep': bool(sw), 'rotated': rot % 90 != 0}
+    if g[0] == 'collide':
+        sig['after_colliding_arc'] = g[1]
     r = outcome(lambda: Arc(*spec))
     if r[0] != 'ok':
         acc.violation('constructor_raises', dict(sig, exc=r[1]), case, observed=r)
@@ -231,14 +271,14 @@ def shards(tier, seed):
 
 def run_shard(desc, tier, seed):
     acc = core.Acc()
-    for i, g in enumerate(itertools.chain(grid(tier), center_grid(tier), near_grid(tier))):
+    for i, g in enumerate(itertools.chain(grid(tier), center_grid(tier), near_grid(tier), collide_grid(tier))):
         if i % 32 == desc['k']:
             check_arc(g, acc)
     return acc
 
 
 def expected_classes(tier):
-    out = []
+    out = ['after_an_arc_with_colliding_hash']
     for region in ('too_small', 'fits', 'exact_fit'):
         for la in (0, 1):
             for sw in (0, 1):
@@ -257,7 +297,9 @@ def space(tier, seed):
 def replay(case):
     acc = core.ReplayAcc()
     g = case['grid']
-    if g[0] == 'near':
+    if g[0] == 'collide':
+        check_arc((g[0], g[1], tuple(g[2]), g[3]), acc)
+    elif g[0] == 'near':
         check_arc((g[0], g[1], g[2], tuple(g[3]), g[4], tuple(g[5])), acc)
     elif g[0] == 'center':
         check_arc(tuple(g), acc)
